@@ -1,6 +1,157 @@
 package main
 
-import "strings"
+import (
+	"go/ast"
+	"sort"
+	"strings"
+)
+
+var decoderFiles = []string{"lds.go", "rds.go", "cds.go", "eds.go", "nds.go", "matcher.go"}
+
+// directAccesses lists, per decoder function, the field selections `x.Field` that are not method calls and
+// whose base is not an imported package: the places where a nil pointer would be dereferenced.
+func directAccesses(res pkgFiles) []string {
+	set := map[string]bool{}
+	for _, fn := range decoderFiles {
+		f := res[fn]
+		if f == nil {
+			continue
+		}
+		pkgs := map[string]bool{}
+		for _, im := range f.Imports {
+			name := ""
+			if im.Name != nil {
+				name = im.Name.Name
+			} else {
+				p := strings.Trim(im.Path.Value, `"`)
+				name = p[strings.LastIndex(p, "/")+1:]
+			}
+			pkgs[name] = true
+		}
+		for _, d := range f.Decls {
+			fd, ok := d.(*ast.FuncDecl)
+			if !ok || fd.Body == nil {
+				continue
+			}
+			calls := map[*ast.SelectorExpr]bool{}
+			ast.Inspect(fd.Body, func(n ast.Node) bool {
+				if ce, ok := n.(*ast.CallExpr); ok {
+					if se, ok := ce.Fun.(*ast.SelectorExpr); ok {
+						calls[se] = true
+					}
+				}
+				return true
+			})
+			ast.Inspect(fd.Body, func(n ast.Node) bool {
+				switch x := n.(type) {
+				case *ast.CompositeLit:
+					// field names of composite literals are not accesses; their types may be package-qualified
+					for _, el := range x.Elts {
+						if kv, ok := el.(*ast.KeyValueExpr); ok {
+							ast.Inspect(kv.Value, func(m ast.Node) bool { return true })
+						}
+					}
+				case *ast.SelectorExpr:
+					if calls[x] {
+						return true
+					}
+					if id, ok := x.X.(*ast.Ident); ok && pkgs[id.Name] {
+						return true
+					}
+					set[fd.Name.Name+": "+norm(src(x))] = true
+				}
+				return true
+			})
+		}
+	}
+	var out []string
+	for k := range set {
+		out = append(out, k)
+	}
+	sort.Strings(out)
+	return out
+}
+
+// knownAccesses: the direct field accesses the decoder model was written against. Each is either on a value
+// that cannot be nil (an element of a repeated field, a freshly allocated message, a local struct) or is an
+// explicit `Option … none = panic` site of the model, or is guarded by a nil check in the code.
+var knownAccesses = map[string]string{
+	// lds.go
+	"UnmarshalLDS: lis.FilterChains":                                 "freshly allocated message",
+	"UnmarshalLDS: lis.DefaultFilterChain":                           "freshly allocated message",
+	"UnmarshalLDS: lis.Name":                                         "freshly allocated message",
+	"unmarshalFilterChain: fc.Filters":                               "element of a repeated field / checked non-nil",
+	"unmarshalFilterChain: cfgType.TypedConfig":                      "wrapper of a matched oneof case (non-nil)",
+	"unmarshalFilterChain: cfgType.TypedConfig.TypeUrl":              "model: PFilterCfg.typed none = panic (FromWire excludes)",
+	"unmarshalThriftProxy: tp.RouteConfig":                           "freshly allocated message; read through a nil-safe getter",
+	"unmarshalThriftProxy: tp.RouteConfig.Name":                      "only inside the loop over its routes (RouteConfig non-nil there)",
+	"unmarshalThriftProxy: r.Route":                                  "element of a repeated field",
+	"unmarshalThriftProxy: t.MethodName":                             "wrapper of a matched oneof case",
+	"unmarshalThriftProxy: t.ServiceName":                            "wrapper of a matched oneof case",
+	"unmarshalThriftProxy: cs.Cluster":                               "wrapper of a matched oneof case",
+	"unmarshalThriftProxy: cs.WeightedClusters":                      "wrapper of a matched oneof case",
+	"unmarshalThriftProxy: wcs.Clusters":                             "model: PThriftCluster.weighted none = panic (FromWire excludes)",
+	"unmarshalThriftProxy: routeMatch.Method":                        "local struct",
+	"unmarshalThriftProxy: routeMatch.ServiceName":                   "local struct",
+	"unmarshalThriftProxy: routeMatch.Tags":                          "local struct",
+	"unmarshalThriftProxy: route.Match":                              "local struct",
+	"unmarshalThriftProxy: route.WeightedClusters":                   "local struct",
+	"unmarshallHTTPConnectionManager: httpConnMng.RouteSpecifier":    "freshly allocated message",
+	"unmarshallHTTPConnectionManager: inlineRouteConfig.MaxTokens":   "result of unmarshalRouteConfig with nil error (non-nil)",
+	"unmarshallHTTPConnectionManager: inlineRouteConfig.TokensPerFill": "result of unmarshalRouteConfig with nil error (non-nil)",
+	"getLocalRateLimitFromHttpConnectionManager: hcm.HttpFilters":    "freshly allocated message",
+	"getLocalRateLimitFromHttpConnectionManager: filter.ConfigType":  "element of a repeated field",
+	"getLocalRateLimitFromHttpConnectionManager: lrl.TokenBucket":    "freshly allocated message",
+	"getLocalRateLimitFromHttpConnectionManager: filter.GetTypedConfig().TypeUrl": "guarded by filter.GetTypedConfig() == nil -> continue",
+	"getLocalRateLimitFromHttpConnectionManager: lrl.TokenBucket.MaxTokens":     "guarded by lrl.TokenBucket != nil",
+	"getLocalRateLimitFromHttpConnectionManager: lrl.TokenBucket.TokensPerFill": "guarded by lrl.TokenBucket != nil; read through a getter",
+	// rds.go
+	"MatchPath: tm.Method": "receiver", "MatchMeta: tm.Tags": "receiver", "MatchPath: rm.Path": "receiver", "MatchPath: rm.Prefix": "receiver",
+	"MatchMeta: rm.Headers": "receiver", "MarshalJSON: r.Match": "receiver", "MarshalJSON: r.WeightedClusters": "receiver", "MarshalJSON: r.Timeout": "receiver",
+	"unmarshalRoutes: p.Prefix":                  "wrapper of a matched oneof case",
+	"unmarshalRoutes: p.Path":                    "wrapper of a matched oneof case",
+	"unmarshalRoutes: routeMatch.Prefix":         "local struct",
+	"unmarshalRoutes: routeMatch.Path":           "local struct",
+	"unmarshalRoutes: routeMatch.Headers":        "local struct",
+	"unmarshalRoutes: route.Match":               "local struct",
+	"unmarshalRoutes: a.Route":                   "wrapper of a matched oneof case; read through nil-safe getters",
+	"unmarshalRoutes: cs.Cluster":                "wrapper of a matched oneof case",
+	"unmarshalRoutes: cs.WeightedClusters":       "wrapper of a matched oneof case",
+	"unmarshalRoutes: wcs.Clusters":              "model: PClusterSpec.weighted none = panic (FromWire excludes)",
+	"unmarshalRoutes: route.WeightedClusters":    "local struct",
+	"unmarshalRoutes: route.Timeout":             "local struct",
+	"unmarshalRoutes: route.RetryPolicy":         "local struct",
+	"unmarshalRoutes: header.Name":               "element of a repeated field",
+	"unmarshalRoutes: route.RetryPolicy.CBErrorRate":  "local struct",
+	"unmarshalRoutes: route.RetryPolicy.Methods":      "local struct",
+	"unmarshalRoutes: route.RetryPolicy.RetryBackOff": "local struct",
+	"UnmarshalRDS: rcfg.Name":                    "freshly allocated message",
+	// matcher.go
+	"Match: rm.re":                      "receiver",
+	"BuildMatchers: hm.StringMatch":     "wrapper of a matched oneof case; read through a nil-safe getter",
+	"BuildMatchers: p.Exact":            "wrapper of a matched oneof case",
+	"BuildMatchers: p.Prefix":           "wrapper of a matched oneof case",
+	"BuildMatchers: p.SafeRegex":        "wrapper of a matched oneof case",
+	"BuildMatchers: p.SafeRegex.Regex":  "guarded by p.SafeRegex != nil",
+	"BuildMatchers: header.Name":        "element of a repeated field",
+	// cds.go
+	"MarshalJSON: c.DiscoveryType": "receiver", "MarshalJSON: c.LbPolicy": "receiver", "MarshalJSON: c.EndpointName": "receiver",
+	"InlineEDS: c.InlineEndpoints":  "receiver",
+	"unmarshalCluster: c.Name":      "freshly allocated message",
+	"unmarshalCluster: c.OutlierDetection": "freshly allocated message",
+	"unmarshalCluster: c.OutlierDetection.FailurePercentageRequestVolume": "guarded by c.OutlierDetection != nil; read through a getter",
+	"unmarshalCluster: c.OutlierDetection.FailurePercentageThreshold":     "guarded by c.OutlierDetection != nil; read through a getter",
+	"unmarshalCluster: ret.OutlierDetection": "local struct",
+	"unmarshalCluster: ret.EndpointName":     "local struct",
+	"unmarshalCluster: ret.InlineEndpoints":  "local struct",
+	// eds.go
+	"Addr: e.addr": "receiver", "Weight: e.weight": "receiver", "Meta: e.meta": "receiver", "MarshalJSON: e.addr": "receiver",
+	"MarshalJSON: e.weight": "receiver", "MarshalJSON: e.meta": "receiver", "Tag: e.meta": "receiver",
+	"UnmarshalEDS: cla.ClusterName": "freshly allocated message",
+	// nds.go
+	"UnmarshalNDS: nt.Table": "freshly allocated message",
+	"UnmarshalNDS: v.Ips":    "map value produced by proto.Unmarshal (non-nil)",
+}
 
 // factsDecoders: shape facts of the decoders (rds.go, lds.go).
 func factsDecoders(o *out, res pkgFiles) {
@@ -17,4 +168,30 @@ func factsDecoders(o *out, res pkgFiles) {
 		}
 	}
 	o.line("def rdsBackoffBaseOk : Bool := %s", baseOk)
+	// rate-limit scan: is there a `return 0, 0, nil` as the last statement of the loop body (stops after the first filter)?
+	scansAll := "false"
+	if fd := res.findFunc("", "getLocalRateLimitFromHttpConnectionManager"); fd != nil {
+		for _, st := range fd.Body.List {
+			if rs, ok := st.(*ast.RangeStmt); ok && norm(src(rs.X)) == "hcm.HttpFilters" {
+				n := len(rs.Body.List)
+				if n > 0 {
+					if _, isRet := rs.Body.List[n-1].(*ast.ReturnStmt); isRet {
+						scansAll = "false"
+					} else if _, isSwitch := rs.Body.List[n-1].(*ast.TypeSwitchStmt); isSwitch && n == 1 {
+						scansAll = "true"
+					} else {
+						o.note("decoders: rate-limit loop body not recognised")
+					}
+				}
+			}
+		}
+	}
+	o.line("def decode : Decode.DecodeFacts := { backoffBaseOk := %s, rateLimitScansAll := %s }", baseOk, scansAll)
+	var unknown []string
+	for _, a := range directAccesses(res) {
+		if _, ok := knownAccesses[a]; !ok {
+			unknown = append(unknown, a)
+		}
+	}
+	o.line("def unknownDerefs : List String := %s", leanStrList(unknown))
 }
